@@ -160,6 +160,7 @@ type Case struct {
 	H0    *Ev
 	Chunk uint64
 	Steps []Step
+	Fwd   bool // mode C: live events and catch-up logs go through the real geth adapter
 	// generator statistics (not part of the case)
 	Gen    string
 	Reorgs int
@@ -200,7 +201,7 @@ func (c *Case) key() string {
 }
 
 type Replay struct {
-	Mode  string   `json:"mode"` // det | run
+	Mode  string   `json:"mode"` // det | run | fwd
 	H0    string   `json:"h0"`
 	Chunk uint64   `json:"chunk"`
 	Steps []string `json:"steps"`
@@ -213,7 +214,7 @@ func (c *Case) replay(mode string) Replay {
 }
 
 func caseOfReplay(rp *Replay) *Case {
-	cs := &Case{Chunk: rp.Chunk, Gen: "replay"}
+	cs := &Case{Chunk: rp.Chunk, Gen: "replay", Fwd: rp.Mode == "fwd"}
 	if cs.Chunk == 0 {
 		cs.Chunk = 1 // chunk 0 does not terminate in the Go code
 	}
